@@ -2,6 +2,7 @@
 From Coq Require Import Floats.
 From GL Require Import Common.Bytes Lua.Syntax Lua.Num Lua.Values Lua.Eval Lua.Run Lua.LuaCases.
 From GL Require Import VMX.Machine VMX.VRun VMX.VmCases.
+From GL Require CC.CompModel.
 
 (* the kernel-evaluated certificate of one generated program: the reference evaluator on its AST,
    the VM model on the prototype the real compiler produced for its text, and the real
@@ -10,7 +11,7 @@ Definition certified (body : list stmt) (p : xproto) (obs : outcome) : Prop :=
   outcome_eqb (outcome_of (run_program fuel no_devs body)) obs = true /\
   outcome_eqb (vm_outcome p) obs = true.
 
-Local Opaque run_program vm_outcome outcome_of outcome_eqb.
+Local Opaque run_program vm_outcome outcome_of outcome_eqb CompModel.frag_tie.
 
 Theorem vprog_validated : forall body p obs,
   check_skip (VProg body p obs) = false -> vm_skip p = false ->
@@ -21,7 +22,8 @@ Proof.
   change (is_skip (outcome_of (run_program fuel no_devs body)) = false) in Hskip.
   change ((is_skip (outcome_of (run_program fuel no_devs body))
            || outcome_eqb (outcome_of (run_program fuel no_devs body)) obs) = true) in Hspec.
-  change ((LuaCases.check_impl (CProg body obs) && (is_skip (vm_outcome p) || outcome_eqb (vm_outcome p) obs)) = true) in Himpl.
+  change ((LuaCases.check_impl (CProg body obs) && (is_skip (vm_outcome p) || outcome_eqb (vm_outcome p) obs) && CompModel.frag_tie body p) = true) in Himpl.
+  apply andb_true_iff in Himpl. destruct Himpl as [Himpl _].
   change (is_skip (vm_outcome p) = false) in Hvskip.
   apply andb_true_iff in Himpl. destruct Himpl as [_ Hvm].
   rewrite Hvskip in Hvm. rewrite Hskip in Hspec.
